@@ -271,6 +271,15 @@ def run(ctx):
     ctx.trust("threading.Lock / Condition semantics (mutual exclusion of `with self.lock` regions; a waiter holds "
               "the lock again when wait returns) — the rig replaces out_buffer_cv by a stand-in with that contract",
               "BufferedPipe (C26) is abstracted to its length")
+    # ---- (T) constants of the sanitising clamp, regenerated from paramiko/common.py on every run
+    from paramiko import common
+    ctx.write_generated("C19", (
+        "/- GENERATED from paramiko/common.py by pv/props/c19.py — do not edit. -/\n"
+        "namespace PV.Generated.C19\n"
+        "def MIN_PACKET_SIZE : Nat := %d\n"
+        "def MAX_WINDOW_SIZE : Nat := %d\n"
+        "def MIN_WINDOW_SIZE : Nat := %d\n"
+        "end PV.Generated.C19\n" % (common.MIN_PACKET_SIZE, common.MAX_WINDOW_SIZE, common.MIN_WINDOW_SIZE)))
     ctx.build(extra_modules=["PV.Model.ChanDriver"])
     rng = ctx.rng
     n_sched = 20000 if ctx.thorough else 4000
